@@ -132,6 +132,11 @@ func AssembleFile(ctx context.Context, name string, idx Index, s Store, seeds []
 		}
 	}
 
+	// An index without chunks describes an empty file, which is all done now
+	if len(idx.Chunks) == 0 {
+		return stats, nil
+	}
+
 	// Determine the blocksize of the target file which is required for reflinking
 	blocksize := blocksizeOfFile(name)
 
